@@ -36,6 +36,7 @@ class ShimEvent:
     def __init__(self):
         self._flag = False
         self.waiter = None
+        self._expired = 0
 
     def is_set(self):
         return self._flag
@@ -47,6 +48,11 @@ class ShimEvent:
         b = ShimEvent.baton
         if self._flag:
             return True
+        if timeout is not None and self._expired < 1 and _real_threading.get_ident() != b.explorer:
+            # a bounded wait may run out before the event is set (the consumer took longer than the
+            # timeout): the first bounded wait on every event expires at once, virtually
+            self._expired += 1
+            return False
         if _real_threading.get_ident() == b.explorer:
             raise LoopThreadBlocked("threading.Event.wait() on the loop thread")
         t = _current_emitter(b)
@@ -57,6 +63,9 @@ class ShimEvent:
             raise _Killed()
         t.blocked_on = None
         return self._flag
+
+    def _maybe_expire(self, timeout):
+        return False
 
 
 def _current_emitter(b):
